@@ -1,5 +1,5 @@
 #!/usr/bin/env python3
-"""Round 3: behaviour-preserving refactorings produced by independent sub-agents (false-alarm hunt).
+"""Rounds 3 and 5 (--round=5): behaviour-preserving refactorings produced by independent sub-agents (false-alarm hunt).
 
 For every /tmp/seed3_<PID>/seed_out/refactor<i>.diff:
   1. in the scratch worktree: apply; pinned test suite must stay 386 passed / 9 failed; the toy pipeline is run with four option
@@ -60,13 +60,19 @@ def snapshot(tree, variant, home):
 
 
 def main():
-    only = sys.argv[1:]
+    args = sys.argv[1:]
+    rnd = 3
+    if args and args[0].startswith("--round="):
+        rnd = int(args[0].split("=")[1])
+        args = args[1:]
+    offset = {3: 0, 5: 4}.get(rnd, 4 * ((rnd - 3) // 2))
+    only = args
     home = tempfile.mkdtemp(prefix="isoq_home_", dir="/tmp")
     base = None
     for pid in CLAIMED:
         if only and pid not in only:
             continue
-        wt = "/tmp/seed3_%s" % pid
+        wt = "/tmp/seed%d_%s" % (rnd, pid)
         outd = os.path.join(wt, "seed_out")
         if not os.path.isdir(outd):
             continue
@@ -74,7 +80,7 @@ def main():
             diff = os.path.join(outd, "refactor%d.diff" % i)
             if not os.path.exists(diff):
                 continue
-            sid = "%s-r%d" % (pid, i)
+            sid = "%s-r%d" % (pid, i + offset)
             sh(["git", "checkout", "--", "."], cwd=wt)
             if base is None:
                 base = {v: snapshot(wt, v, home) for v in VARIANTS}
@@ -99,6 +105,8 @@ def main():
             rc, o = sh(["git", "-C", "/repo", "apply", "--check", diff])
             if rc != 0:
                 res["error"] = "does not apply to /repo HEAD"
+            elif rnd != 3:
+                pass            # the checks are run afterwards on scratch worktrees, 14 at a time: tools/recheck_parallel.py --refactorings
             else:
                 sh(["git", "-C", "/repo", "apply", diff])
                 try:
